@@ -3,7 +3,7 @@
     (no law of arithmetic is used), hence bit for bit on binary64; grids and rotations are stated on [RO]. *)
 From Coq Require Import List Arith ZArith Bool Reals.
 From Compute Require Import Base.Ops Base.ListMat Model.Shape Spec.Shape
-  Proofs.C15 Proofs.C15Step Proofs.C15Top Proofs.C15Ctors Proofs.C15Real Proofs.C15Preds.
+  Proofs.C15 Proofs.C15Step Proofs.C15Top Proofs.C15Ctors Proofs.C15Real Proofs.C15Preds Proofs.C15Empty.
 Import ListNotations.
 
 (** Core: for EVERY sequence of structural operations, started in a well-formed state, the concrete state
@@ -53,6 +53,57 @@ Theorem C15_new_rejects :
        (r = Z.of_nat (nrows m') \/ r = (-1)%Z) /\ (c = Z.of_nat (ncols m') \/ c = (-1)%Z) /\ ~ (r = (-1)%Z /\ c = (-1)%Z))).
 Proof. exact @new_rejects. Qed.
 
+(** ** The struct invariant alone, the empty matrix, zero and negative dimensions.
+    [C15_run_refines] is about positive shapes ([Inv]); the empty matrix 0 x 0 of [Matrix::empty()] -- which the repaired
+    [reshape_mut] / [Matrix::new] accept as the request (0, 0) on empty data -- and the degenerate shapes 0 x c / r x 0
+    that an inferred dimension produces on empty data are outside it (a list of rows cannot carry the column count of a
+    matrix without rows).  For them: *)
+
+(** [nrows * ncols = data.len()] is preserved by every operation sequence from EVERY state that has it, any shape *)
+Theorem C15_run_preserves_invariant :
+  forall (T : Type) (O : Ops T) (ops : list op) (m m' : mat T) (outs : list (list T)),
+    nrows m * ncols m = length (data m) -> run O m ops = Some (m', outs) -> nrows m' * ncols m' = length (data m').
+Proof. exact @run_wf. Qed.
+Theorem C15_step_preserves_invariant :
+  forall (T : Type) (O : Ops T) (m : mat T) (o : op) (m' : mat T) (out : list T),
+    nrows m * ncols m = length (data m) -> step O m o = Some (m', out) -> nrows m' * ncols m' = length (data m').
+Proof. exact @step_wf. Qed.
+
+(** every operation on the empty matrix, as a table ([Spec.Shape.empty_step]): reshapes to 0 x 0 and concatenation with
+    the empty matrix return it, repetition returns it, the diagonal is empty, an inferred dimension gives 0 x c / r x 0,
+    everything else panics (transposition: division by zero in [utils::is_matrix]) *)
+Theorem C15_empty_matrix_steps :
+  forall (T : Type) (O : Ops T) (o : op), step O (mkMat 0 0 (@nil T)) o = empty_step o.
+Proof. exact @step_on_empty. Qed.
+
+(** a request with a zero dimension is accepted exactly as 0 x 0 on a matrix without elements (by [reshape_mut],
+    [Matrix::new] and the copying [reshape] alike), and then yields the 0 x 0 matrix; for EVERY state *)
+Theorem C15_zero_dimension_requests :
+  forall (T : Type) (m : mat T) (r c : Z), (r = 0 \/ c = 0)%Z ->
+    reshape_mut m r c = (if ((r =? 0) && (c =? 0))%Z && (nrows m * ncols m =? 0) then Some (mkMat 0 0 (data m)) else None) /\
+    new (data m) r c = (if ((r =? 0) && (c =? 0))%Z && (length (data m) =? 0) then Some (mkMat 0 0 (data m)) else None) /\
+    reshape m r c = (if ((r =? 0) && (c =? 0))%Z && (length (data m) =? 0) then Some (mkMat 0 0 (data m)) else None).
+Proof. exact @zero_dimension_requests. Qed.
+(** a negative dimension other than -1 is always refused *)
+Theorem C15_negative_dimension_requests :
+  forall (T : Type) (m : mat T) (r c : Z), (r < -1 \/ c < -1)%Z -> reshape_mut m r c = None /\ new (data m) r c = None.
+Proof. exact @negative_dimension_requests. Qed.
+(** [Matrix::new] on no elements: 0 x 0, or 0 x c / r x 0 through an inferred dimension, nothing else *)
+Theorem C15_new_on_empty_data :
+  forall (T : Type) (r c : Z),
+    new (@nil T) r c =
+    if ((r =? 0) && (c =? 0))%Z then Some (mkMat 0 0 [])
+    else if ((r =? -1) && (0 <? c))%Z then Some (mkMat 0 (Z.to_nat c) [])
+    else if ((c =? -1) && (0 <? r))%Z then Some (mkMat (Z.to_nat r) 0 [])
+    else None.
+Proof. exact @new_on_empty_data. Qed.
+Example C15_example_empty_program :
+  run RO (mkMat 0 0 []) [OReshapeMut 0 0; OHrepeat 3; ODiag; OVcat [] 0 0; OReshapeMut (-1) 3; OGetCol 1]
+  = Some (mkMat 0 3 [], [[]; []; []; []; []; []]) /\
+  run RO (mkMat 0 0 []) [OT] = None /\ run RO (mkMat 0 0 []) [OReshapeMut 0 3] = None /\
+  run RO (mkMat 2 1 [1; 2]%R) [OReshapeMut 0 0] = None.
+Proof. repeat split. Qed.
+
 (** ** Constructors (any carrier) *)
 Theorem C15_zeros_def : forall (T : Type) (O : Ops T) (r c : nat), 0 < r -> 0 < c ->
   zeros O r c = Some (mkMat r c (repeat (zero O) (r * c))).
@@ -60,9 +111,17 @@ Proof. exact @zeros_def. Qed.
 Theorem C15_ones_def : forall (T : Type) (O : Ops T) (r c : nat), 0 < r -> 0 < c ->
   ones O r c = Some (mkMat r c (repeat (one O) (r * c))).
 Proof. exact @ones_def. Qed.
-Theorem C15_zeros_ones_reject : forall (T : Type) (O : Ops T) (r c : nat), r = 0 \/ c = 0 ->
+(** a zero dimension is refused -- except 0 x 0.  (This theorem used to say [r = 0 \/ c = 0 -> None]: it described the
+    original [reshape_mut], which refused every zero dimension and thereby made every value-returning operator panic
+    on [Matrix::empty()] -- the repaired C04 finding [empty-matrix:value-form-panics]; restated for the repaired code.) *)
+Theorem C15_zeros_ones_reject : forall (T : Type) (O : Ops T) (r c : nat), r = 0 \/ c = 0 -> ~ (r = 0 /\ c = 0) ->
   zeros O r c = None /\ ones O r c = None.
 Proof. exact @zeros_ones_reject. Qed.
+Theorem C15_zeros_ones_empty : forall (T : Type) (O : Ops T),
+  zeros O 0 0 = Some (mkMat 0 0 []) /\ ones O 0 0 = Some (mkMat 0 0 []).
+Proof. exact @zeros_ones_empty. Qed.
+Theorem C15_eye_zero : forall (T : Type) (O : Ops T), eye O 0 = Some (mkMat 0 0 []).
+Proof. exact @eye_zero. Qed.
 
 Theorem C15_eye_def : forall (T : Type) (O : Ops T) (n : nat), 0 < n ->
   exists a, eye O n = Some (mkMat n n a) /\ length a = n * n /\
